@@ -51,6 +51,13 @@ def fmt(x: SymNum, spec: str) -> str:
         return tok(round(x, int(m.group(1))))
     if _INTSPEC.match(spec):
         return format(concretize(x), spec)
+    if spec == "g":
+        # an integer of at most six digits prints as itself; everything else (exponent form, six significant digits) is left
+        # to the float run of this path, whose model now satisfies the complementary condition
+        from .core import p_integral
+
+        if p_integral(x.p) and bool(x < 10**6) and bool(x > -10**6):
+            return tok(x)
     raise Unsupported("format spec %r on a symbolic value" % spec)
 
 
